@@ -387,6 +387,14 @@ def _rule_c05_r4(model: Model) -> RuleResult:
         out_form = no_style(nz.expr(kw['out_name'], rets[0]))
         in_form = no_style(nz.expr(kw['in_names'], rets[0]))
         r.sample({'configuration': label, 'out_name': out_form, 'in_names': in_form})
+        # the output name follows the documented precedence: the field's own out_name, its rename, the class style, the Python name
+        want_out = 'self.out_name' if combo['self.out_name'] else ('self.rename' if combo['self.rename'] else
+                                                                    ('pane.field.rename_field($name, $out_rename)' if combo['$out_rename'] else '$name'))
+        if out_form != want_out and not (want_out.startswith('pane.field.rename_field') and out_form.startswith(want_out[:-1])):
+            r.fail(f.qualname, f"configuration [{label}]: out_name={out_form}, documented: {want_out}", f.loc(call),
+                   "the output name does not follow the precedence out_name > rename > class style > Python name: the key written for the "
+                   "field is not the one configured for it")
+            continue
         if combo['self.out_name'] or combo['self.in_names']:
             r.ok()             # the user chose one side explicitly
             continue
@@ -440,7 +448,8 @@ def _flatten(e: ast.expr, want: bool, nz: Normalizer, node: t.Any, b: t.Dict[str
 
 
 def _split_phi(form: str) -> t.List[str]:
-    if not (form.startswith('PHI(') and form.endswith(')')):
+    from .forwarding import _is_wrapped
+    if not _is_wrapped(form, 'PHI('):
         return [form]
     out, cur, depth = [], '', 0
     for ch in form[4:-1]:
